@@ -55,6 +55,9 @@ A_blocked(ev) == ev.blocked = 1 => ev.q = 0                     \* C11: block-li
 A_queued(ev) == ev.q \in {0, 1}
 \* ---- server sends ---------------------------------------------------------------------------------
 A_noamplify(ev) == ev.a \notin everConn => Get(bout, ev.a, 0) + ev.n <= Get(bin, ev.a, 0)   \* C11: never more bytes to an unproven address than it sent
+\* C03: once a key is agreed everything the server emits is AES-GCM under that connection's key - except the signed server hello,
+\* which travels alone in a CRC datagram (sealed: 1 opens under the key, 2 plain CRC datagram, 0 neither)
+A_sealed(ev) == IF ev.ptype = 2 THEN ev.sealed = 2 /\ ev.count = 1 ELSE ev.sealed = 1
 A_notblocked(ev) == ev.a \notin {P.blocked[i] : i \in DOMAIN P.blocked}                      \* C11: no reply to a block-listed address
 \* ---- handler events ---------------------------------------------------------------------------------
 L_thread(ev) == thread = 0 \/ ev.tid = thread                                                \* C10: all handler events on one thread
@@ -108,7 +111,7 @@ Clauses ==
   IF l > Len(Tr) THEN {}
   ELSE LET ev == Ev IN
     IF ev.ev = "rx" THEN {c \in {"A_blocked", "A_queued"} : ~CASE c = "A_blocked" -> A_blocked(ev) [] c = "A_queued" -> A_queued(ev)}
-    ELSE IF ev.ev = "tx" THEN {c \in {"A_noamplify", "A_notblocked"} : ~CASE c = "A_noamplify" -> A_noamplify(ev) [] c = "A_notblocked" -> A_notblocked(ev)}
+    ELSE IF ev.ev = "tx" THEN {c \in {"A_noamplify", "A_notblocked", "A_sealed"} : ~CASE c = "A_noamplify" -> A_noamplify(ev) [] c = "A_notblocked" -> A_notblocked(ev) [] c = "A_sealed" -> A_sealed(ev)}
     ELSE IF ev.ev = "h" THEN
       {c \in {"L_thread", "L_connect", "L_msg", "L_disc", "L_aftershutdown", "T_srvdrop"} :
          ~CASE c = "L_thread" -> L_thread(ev) [] c = "L_connect" -> L_connect(ev) [] c = "L_msg" -> L_msg(ev) [] c = "L_disc" -> L_disc(ev)
@@ -138,7 +141,7 @@ Upd ==
         /\ sess' = s2
         /\ lastHeard' = IF mine /\ ev.genuine = 1 THEN Put(lastHeard, ev.a, ev.now) ELSE lastHeard      \* (a replay may be dropped as a duplicate: it proves nothing about liveness)
         /\ proved' = IF mine /\ ev.ptype = 3 THEN proved \cup {ev.a} ELSE IF opens THEN proved \ {ev.a} ELSE proved
-     /\ lastAny' = IF ev.q = 1 THEN Put(lastAny, ev.a, ev.now) ELSE lastAny
+     /\ lastAny' = IF ev.q = 1 /\ ev.dupe = 0 THEN Put(lastAny, ev.a, ev.now) ELSE lastAny      \* (a byte-identical copy of something already received proves nothing)
      /\ known' = IF ev.q = 1 /\ ev.ptype = 1 THEN known \cup {ev.a} ELSE known
      /\ UNCHANGED <<phase, objAt, tokens, thread, lastTx, bout, everConn, stopAt, cstate, shutdownSeen, open, tempSince, lastCsend>>
   ELSE IF ev.ev = "tx" THEN
